@@ -1519,6 +1519,14 @@ impl<'a> Gen<'a> {
             b.push_str(&format!("  return first{}(kept)\n}}\n", k));
             s.push_str(&b);
         }
+        if self.rng.chance(1, 4) {
+            // a name shadowed inside a block / loop and used again afterwards (also shadowing a top-level let)
+            self.st.hit("shadowing-in-inner-scope");
+            let k = self.fresh;
+            self.fresh += 1;
+            let g = if with_global { "  {\n    let gk = 2\n    print(gk)\n  }\n  print(gk)\n" } else { "" };
+            s.push_str(&format!("fn sh{}(c: bool) -> int {{\n  let x = 1\n  if c {{\n    let x = \"s\"\n    print(x)\n  }}\n  for x in 0..2 {{\n    print(x)\n  }}\n{}  return x\n}}\n", k, g));
+        }
         if self.rng.chance(1, 3) {
             // a function taking a function value (its type is inferred, not annotated)
             self.st.hit("higher-order-fn");
